@@ -113,6 +113,7 @@ class Interp:
         self.touched: set = set()
         self.opaque_calls: List[Any] = []
         self.stubs: Dict[Any, Any] = {}  # (inst id, method name) -> AV | callable
+        self.genexp_origin: Dict[int, Any] = {}  # id(value of a generator expression) -> (node, frame, value)
         from .abshost2 import Host
 
         self.host = Host(self)
@@ -482,7 +483,12 @@ class Interp:
         return self.comprehension(node, node.elt, node.generators, fr, "list")
 
     def e_GeneratorExp(self, node: ast.GeneratorExp, fr: Frame) -> AV:
-        return self.comprehension(node, node.elt, node.generators, fr, "iter")
+        v = self.comprehension(node, node.elt, node.generators, fr, "iter")
+        # a generator expression is evaluated lazily, in the enclosing scope's bindings at the time each element is
+        # requested; remember where the value came from so that a loop that rebinds one of its free variables can
+        # be executed as the nested loop it really is (s_For)
+        self.genexp_origin[id(v)] = (node, fr, v)
+        return v
 
     def e_DictComp(self, node: ast.DictComp, fr: Frame) -> AV:
         pair = ast.Tuple(elts=[node.key, node.value], ctx=ast.Load())
@@ -668,6 +674,11 @@ class Interp:
             r = hook(self, fi, args, kwargs, node)
             if r is not NotImplemented:
                 return r
+        if fi.cls is not None and args and self.stubs:
+            # an explicit per-instance stub wins over the class's own method (harness-made instances of concrete classes)
+            stub0 = self.stubs.get((getattr(args[0], "id", None), fi.name))
+            if stub0 is not None and "abstractmethod" not in fi.decorators:
+                return stub0(self, args[1:], kwargs) if callable(stub0) else stub0
         if "abstractmethod" in fi.decorators:
             recv = args[0] if args else None
             stub = self.stubs.get((getattr(recv, "id", None), fi.name))
@@ -983,6 +994,28 @@ class Interp:
 
     def s_For(self, st: ast.For, fr: Frame) -> None:
         it = self.eval(st.iter, fr)
+        org = self.genexp_origin.get(id(it))
+        if org is not None and org[2] is it and org[1] is fr and len(org[0].generators) == 1 and not st.orelse:
+            ge = org[0]
+            bound = {n.id for g in ge.generators for n in ast.walk(g.target) if isinstance(n, ast.Name)}
+            free = {n.id for n in ast.walk(ge) if isinstance(n, ast.Name) and isinstance(n.ctx, ast.Load)} - bound
+            rebound = {n.id for n in ast.walk(st.target) if isinstance(n, ast.Name)}
+            for b in st.body:
+                for n in ast.walk(b):
+                    if isinstance(n, ast.Name) and isinstance(n.ctx, ast.Store):
+                        rebound.add(n.id)
+            if free & rebound:
+                # late binding: each element is computed when the loop asks for it, with whatever the loop has made
+                # of the shared names by then.  Execute  for <target> in (<elt> for <t> in <iter> if <conds>): <body>
+                # as  for <t> in <iter>: if <conds>: <target> = <elt>; <body>
+                g = ge.generators[0]
+                inner: List[ast.stmt] = [ast.Assign(targets=[st.target], value=ge.elt, lineno=st.lineno, col_offset=st.col_offset)] + list(st.body)
+                for cond in reversed(g.ifs):
+                    inner = [ast.If(test=cond, body=inner, orelse=[], lineno=st.lineno, col_offset=st.col_offset)]
+                loop = ast.For(target=g.target, iter=g.iter, body=inner, orelse=[], lineno=st.lineno, col_offset=st.col_offset)
+                ast.fix_missing_locations(loop)
+                self.genexp_origin.pop(id(it), None)
+                return self.s_For(loop, fr)
         self.run_loop(
             st.target,
             it,
